@@ -176,7 +176,7 @@ impl TcpListener {
                     w.listeners[self.lid].waker = Some(cx.waker().clone());
                     return Poll::Pending;
                 };
-                if w.take_fault(FaultKind::AcceptErr, port, node) {
+                if w.take_fault(FaultKind::AcceptErr, port, node) || w.fd_exhausted(node, "emfile_accept") {
                     w.log(2, self.lid as u64, u64::MAX);
                     // EMFILE: the connection stays in the queue
                     return Poll::Ready(Err(io::Error::from_raw_os_error(24)));
@@ -273,6 +273,10 @@ impl TcpStream {
                 }
             },
         };
+        if world::with(|w| w.fd_exhausted(node, "emfile_connect")) {
+            // socket(2) fails before anything reaches the network
+            return Err(io::Error::from_raw_os_error(24));
+        }
         // decide the outcome now, deliver it after one round trip
         enum Outcome {
             Ok(usize),
@@ -753,7 +757,7 @@ impl UdpSocket {
     pub fn bind_now(mut addr: SocketAddr) -> io::Result<UdpSocket> {
         world::with(|w| {
             let node = world::current_node();
-            if w.take_fault(FaultKind::UdpBindErr, addr.port(), node) {
+            if w.take_fault(FaultKind::UdpBindErr, addr.port(), node) || w.fd_exhausted(node, "emfile_udp_bind") {
                 return Err(io::Error::from_raw_os_error(24));
             }
             if addr.port() == 0 {
